@@ -471,6 +471,9 @@ class MetadorGroup(MetadorNode):
             dst_path = dest
         elif isinstance(dest, MetadorGroup):
             dst_path = dest.name + f"/{dst_name}"
+            if M.is_internal_path(dst_path):
+                msg = f"Trying to use a Metador-internal path: '{dst_path}'"
+                raise ValueError(msg)
         else:
             raise ValueError("Copy dest must be path or Group!")
 
